@@ -114,6 +114,17 @@ theorem single_pos_format2_roundtrip (t : SinglePos2) (rest : Bytes) (hc : t.cov
   simp only []
   rw [hps]
 
+/-- the same for every table that passes validation (`check_format_consistency` establishes the format condition, the
+generated length check the count) -/
+theorem single_pos_format2_validated_roundtrip (t : SinglePos2) (rest : Bytes) (hv : validateSP2 t = true)
+    (hc : t.coverageOffset < 65536) (hf : valueFormat2 t < 65536) (hw : ∀ r ∈ t.records, WellSized r)
+    (hz : encodedSize (valueFormat2 t) ≠ 0) :
+    ∃ bytes ps, writeSP2 t = some bytes
+      ∧ readSP2 (bytes ++ rest) = some (2, t.coverageOffset, valueFormat2 t, t.records.length, ps, rest)
+      ∧ ps.map toOwned = t.records.map normalize := by
+  simp only [validateSP2, Bool.and_eq_true, decide_eq_true_eq, List.all_eq_true, beq_iff_eq] at hv
+  exact single_pos_format2_roundtrip t rest hc (by omega) hf (fun r hr => ⟨hw r hr, hv.2 r hr⟩) hz
+
 /-- the known finding C04-empty-value-records inside the model: records of the empty format are not read back at all -/
 theorem single_pos_format2_empty_format_loses_records (cov n : Nat) (rest : Bytes) (hc : cov < 65536) (hn : n < 65536) :
     readSP2 (be 2 2 ++ be 2 cov ++ be 2 0 ++ be 2 n ++ rest) = some (2, cov, 0, n, [], rest) := by
